@@ -37,12 +37,13 @@ MANIFEST = dict(
          "C19.walks_pinned, C19.fns_pinned); each consumer is a function of the container's enumeration order and is proved independent "
          "of it for all balances / maps, no size bound (sortedAmounts_perm, printBalance_perm, balance_den_perm, finalize_order_free, "
          "subtotal_order_free, gt_balance_order_free, sortBy_key_perm). Six consumers of the pinned tree leaked the order; for each the "
-         "negation is proved on a concrete witness (…_order_leaks) with a …_partial theorem of what stays order-free. Four of them "
-         "(put_balance, top_amount, collapse_posts totals map, posts_commodities_iterator) are repaired in /repo: their form is read "
-         "from the source on every run, C19.put_balance_fixed / top_amount_fixed / collapse_totals_fixed / prices_set_fixed are "
-         "obligations that the repaired form is present, and xml_balance_order_free / top_amount_order_free / collapse_order_free / "
-         "prices_order_free follow unconditionally; `balance < amount` and strip_annotations merging lots remain (known findings), as "
-         "does the error text of average_lot_prices (found and localised by the runtime part only). Uninitialised reads, heap-layout and wall-clock dependence cannot be exhibited by a model: they are only EXERCISED - "
+         "negation is proved on a concrete witness (…_order_leaks, stated for the OLD form) with what stays order-free. Five of them "
+         "(put_balance, top_amount, collapse_posts totals map, posts_commodities_iterator, `balance < amount`) are repaired in /repo: "
+         "their form is read from the source on every run, C19.put_balance_fixed / top_amount_fixed / collapse_totals_fixed / "
+         "prices_set_fixed / lt_balance_sorted_flag are obligations that the repaired form is present, and xml_balance_order_free / "
+         "top_amount_order_free / collapse_order_free / prices_order_free / lt_balance_order_free follow unconditionally; "
+         "strip_annotations merging lots remains (known finding), as does the error text of average_lot_prices (found and localised "
+         "by the runtime part only). compare_by_commodity's mirrored lot branches are read from the source and proved antisymmetric. Uninitialised reads, heap-layout and wall-clock dependence cannot be exhibited by a model: they are only EXERCISED - "
          "generated journals x commands are run under setarch -R on/off, MALLOC_PERTURB_, MALLOC_MMAP_THRESHOLD_=0 (reversed heap "
          "order), tcache/fastbin/arena tunables, padded and empty environments and different working directories, and sha256 of "
          "stdout+stderr+status must be identical (only the documented xml ids masked); a difference is localised to the container and "
@@ -54,10 +55,10 @@ MANIFEST = dict(
          "symbols; body pinned), std::stable_sort/std::map are sorted containers, glibc malloc tunables really change the layout "
          "(measured: the known leaks flip under them). Genuine findings reported by this check on the pinned tree: reg --collapse "
          "--depth N row order (filters.h:431, fixed c8b647e), xml <amount> order (balance.cc:375-379, fixed 36e5f68), prices/pricedb "
-         "group order (iterators.cc:141, fixed fc0aedd), top_amount (report.cc:517-521, fixed c1ef985) - any of these is reported as "
-         "a violation again if it returns; still present and listed as known findings: `balance < amount` (value.cc:965-975), "
-         "rounded/unrounded rendering of a total holding two lots of one commodity (balance.cc:263-271 strip_annotations), error text "
-         "of --average-lot-prices with lot prices in two commodities (balance.cc:389-410); latent, not exhibitable with libstdc++: "
+         "group order (iterators.cc:141, fixed fc0aedd), top_amount (report.cc:517-521, fixed c1ef985), `balance < amount` "
+         "(value.cc:965-975, fixed 89c0598) - any of these five is reported as a violation again if it returns; still present and "
+         "listed as known findings: rounded/unrounded rendering of a total holding two lots of one commodity (balance.cc:263-271 "
+         "strip_annotations), error text of --average-lot-prices with lot prices in two commodities (balance.cc:389-410); latent, not exhibitable with libstdc++: "
          "finalize's two-commodity branch with a zero-amount top posting of a third commodity (C19.finalize_zero_top_order_leaks).",
     technique="Lean 4 proof of permutation-invariance of every consumer of an unordered/address-ordered container + regenerated "
               "container inventory + differential model/binary check with the observed enumeration + perturbed repeated executions",
@@ -735,7 +736,8 @@ CMP_TXT = {"lt": "<", "gt": ">", "le": "<=", "ge": ">="}
 
 
 def corr_cmp(ctx, sweep, n):
-    """(balance) op value: the binary's answer must be one of the model's answers over all enumerations; and stable."""
+    """(balance) op value: the model is asked under EVERY enumeration of the components and must give one answer, the
+    binary must give exactly that answer in every environment (the `<` rows walk sorted_amounts since 89c0598)."""
     rng = ctx.rng
     cases, metas = [], []
     for i in range(n):
@@ -777,18 +779,18 @@ def corr_cmp(ctx, sweep, n):
             ek = vflib.err_kind(t)
             impl = ("err\t" + ek) if ek else ("ok\t" + o["out"].decode().strip().split("\n")[-1])
             if impl not in answers:
-                ctx.tie_broken("corr:os.cmp", "%s: ledger %r (%s), model over all enumerations %r" % (case[1][1], impl, e["name"], sorted(answers)))
+                ctx.tie_broken("corr:os.cmp", "%s: ledger %r (%s), model %r" % (case[1][1], impl, e["name"], sorted(answers)))
                 ctx.mism.append({"op": "os.cmp", "expr": case[1][1], "ledger": impl, "model": sorted(answers)})
                 break
         else:
             ctx.traces_validated += 1
         if len(answers) > 1:
+            # only possible when the source walks the hash map unsorted again (Gen.ltBalanceSorted = false, which also breaks
+            # C19.lt_balance_sorted_flag): the model itself is order-dependent and membership is all that can be compared
             ctx.feature("cmp:model-order-dependent")
-        elif not stable and answers == {"err\tdiffComm"}:
-            # every enumeration throws, but the message names the first offending component: stderr is order-dependent
-            ctx.feature("cmp:error-text-order-dependent")
+            ctx.tie_broken("corr:os.cmp:model-order-dependent", "%s: the model answers differently for different enumerations: %r" % (case[1][1], sorted(answers)))
         elif not stable:
-            # the model says order-free but the binary flipped: an unmodelled dependence
+            # the model is order-free (one answer for every enumeration) but the binary flipped
             ctx.tie_broken("corr:os.cmp:stability", "%s flips on the binary although the model is order-free" % case[1][1])
         if len(names) >= 2:
             ctx.nontrivial(("cmp", case[1][1]))
